@@ -249,8 +249,13 @@ def report(prop, args, seed, cds, results, t0):
             st = r['native']['status']
             if st == 'failed':
                 bounded_failed += 1
-                f = r['native']['info']['failures'][0]
-                violations.append((cid, r['config'], f['clause'], dict(status='refuted', backend='native', native=r['native']['info'], model=r['native']['info'].get('inputs'))))
+                seen_b = set()
+                for f in r['native']['info']['failures']:
+                    cb = _clause_base(f['clause'])
+                    if cb in seen_b:
+                        continue
+                    seen_b.add(cb)
+                    violations.append((cid, r['config'], f['clause'], dict(status='refuted', backend='native', native=dict(r['native']['info'], failures=[f]), model=r['native']['info'].get('inputs'))))
             elif st == 'crash':
                 violations.append((cid, r['config'], 'returns-normally', dict(status='refuted', backend='native', native=r['native']['info'], model=r['native']['info'].get('inputs'))))
             elif st == 'rejected':
@@ -286,7 +291,7 @@ def report(prop, args, seed, cds, results, t0):
     seen = set()
     known_keys = set()
     for cid, config, clause, rec in violations:
-        key = (cid, json.dumps(config, sort_keys=True), clause.split('[')[0].split('#')[0])
+        key = (cid, json.dumps(config, sort_keys=True), _clause_base(clause))
         if key in seen:
             continue
         seen.add(key)
@@ -336,7 +341,7 @@ def report(prop, args, seed, cds, results, t0):
         print('ENGINE-CRASH %s%s\n%s' % (cid, _cfgs(config), tb))
 
     n_known_obl = sum(1 for cid, config, clause, rec in violations
-                      if (cid, json.dumps(config, sort_keys=True), clause.split('[')[0].split('#')[0]) in known_keys
+                      if (cid, json.dumps(config, sort_keys=True), _clause_base(clause)) in known_keys
                       and rec.get('backend') != 'native')
     n_obl -= n_known_obl
     wall = time.time() - t0
@@ -394,6 +399,12 @@ def report(prop, args, seed, cds, results, t0):
         print('zero obligations: refusing to report success')
         return EXIT_GAP
     return EXIT_OK
+
+
+def _clause_base(clause):
+    """clause name without the trailing element indices ([0, 1], #3)"""
+    import re
+    return re.sub(r'((\[[0-9, ]+\])|(#[0-9]+))+$', '', clause)
 
 
 def _cfgs(config):
